@@ -19,6 +19,9 @@ func init() { core.Register(c04{}) }
 
 func (c04) ID() string { return "C04" }
 
+// EvalFeatures names the counters of judged executions.
+func (c04) EvalFeatures() []string { return []string{"lines", "option-groups", "k1-lines"} }
+
 func (c04) Cases(tier string) int {
 	if tier == "thorough" {
 		return 60000
